@@ -167,7 +167,12 @@ class HSEnumerator(
             changed = False
             for S in list(self.G.rules.keys()):
                 old = self.max_priority.get(S, None)
-                self.__init_non_terminal__(S)
+                # recompute from the current best programs of the arguments
+                # (__init_non_terminal__ would keep the entries of a first,
+                # possibly incomplete, pass over a recursive grammar)
+                best_program, _ = self.__compute_max_prio__(S)
+                if best_program is not None:
+                    self.max_priority[S] = best_program
 
                 if S not in self.max_priority or old != self.max_priority[S]:
                     changed = True
